@@ -66,6 +66,33 @@ var AlphaC08 = Alphabet{
 	Inits:   []string{"I:Sa.Sb"},
 }
 
+// TripleItemsC06: the items of the generated three-client programs (unordered triples with repetition).
+var TripleItemsC06 = []string{
+	"Ga.Ga",
+	"Sa", "Da",
+	"b%d1.s%da.c%d",           // RC: set, commit
+	"b%d1.s%da.g%da.g%da.r%d", // RC: set, get, get (reads its own write twice), rollback
+}
+
+// Programs3 returns every unordered triple (with repetition) of one item per client thread, triples of
+// pure readers excluded (items[:readers] only read).
+func Programs3(items []string, readers int, init string) []string {
+	var out []string
+	for a := range items {
+		for b := a; b < len(items); b++ {
+			for c := b; c < len(items); c++ {
+				if c < readers {
+					continue
+				}
+				slot := 0
+				ths := []string{instantiate(items[a], &slot), instantiate(items[b], &slot), instantiate(items[c], &slot)}
+				out = append(out, init+"|"+strings.Join(ths, "|"))
+			}
+		}
+	}
+	return out
+}
+
 func instantiate(it string, slot *int) string {
 	if !strings.Contains(it, "%d") {
 		return it
